@@ -201,10 +201,10 @@ func pmaskName(m uint32) string {
 }
 
 type c08Chain struct {
-	e              *Engine
-	limit          *big.Int
-	flags          int
-	bodyTooSmall   bool
+	e            *Engine
+	limit        *big.Int
+	flags        int
+	bodyTooSmall bool
 }
 
 // c08Engine: a double-ledger chain with a given limit, flag state and max body size; account 4 is unboundedly rich.
